@@ -24,12 +24,19 @@ def run_routing(env, rng, out, classes):
   port = _PORT[0]
 
   with_timeouts = rng.random() < 0.5
+  segmented = rng.random() < 0.3
+  if segmented:
+    classes.add('routing:segmented-responses')
 
   class Policy(servers.DefaultPolicy):
     def __call__(self, server, conn, req):
       if with_timeouts and rng.random() < 0.4:
         return {'delay': rng.choice([0.03, 0.05, 0.08]) * (1 + 0.2 * rng.random())}    # later than the short deadlines
-      return {'delay': rng.choice([0.0005, 0.001, 0.002, 0.01]) * (1 + rng.random())}
+      act = {'delay': rng.choice([0.0005, 0.001, 0.002, 0.01]) * (1 + rng.random())}
+      if segmented and rng.random() < 0.5:
+        # the response reaches the client in several segments (cut inside the size prefix as well)
+        act['chunks'] = [(rng.randint(1, 9), rng.choice([0.0, 0.0005, 0.002])) for _ in range(rng.randint(1, 4))]
+      return act
   broker = servers.KafkaBroker(net, 'kb', port, Policy())
   tp = KafkaTransportSink.Builder()
   if rng.random() < 0.3:
@@ -117,7 +124,8 @@ def run_routing(env, rng, out, classes):
         'reached broker' if r else 'never reached broker'), {})
       continue
     if isinstance(ar.exception, ScalesTimeout) and payload in deadline_of and \
-        (r is None or r.get('reply_vt') is None or r['reply_vt'] > deadline_of[payload] - 0.011):
+        (r is None or r.get('reply_vt') is None or
+         r['reply_vt'] + r.get('chunk_delay', 0.0) > deadline_of[payload] - 0.011):
       classes.add('routing:timed-out-in-transit')
       continue      # legitimately timed out: the broker's answer came (or would come) after the deadline
     if ar.exception is not None:
